@@ -48,6 +48,14 @@ class R(metaclass=M2):
     def __init__(self, n):
         LOG.append(("R", self, (n,), {}))
         self.inner = R(n - 1) if n > 0 else None
+def make_twin(tag):
+    """a class factory: its products are distinct classes with one name, module and qualified name"""
+    class Twin(metaclass=M1):
+        def __init__(self, *args, **kwargs):
+            LOG.append((tag, self, args, kwargs))
+    return Twin
+T1 = make_twin("T1")
+T2 = make_twin("T2")
 '''
 CLASSES = ("A", "B", "C", "D", "E")
 # argument forms: name -> (args, kwargs as ordered list of pairs)
@@ -121,10 +129,77 @@ def run(ctx):
                               f"class R whose __init__(n) constructs R(n - 1), hash function {hf}, prior {prior}: {why}",
                               replay="from edgegraph.structure.singleton import *\nM = semi_singleton_metaclass()\nclass R(metaclass=M):\n    def __init__(self, n):\n        self.inner = R(n - 1) if n > 0 else None\n"
                                      "r = R(1)\nprint(R(1) is r, R(0) is r.inner, check_semi_singleton_entry_exists(R, 1) is r, len(list(get_all_semi_singleton_instances(R))))")
+    # ---- two distinct classes that share name, module and qualified name (products of a class factory)
+    for hf in ("None", "first"):
+        for script in ("construct", "check", "clear-other", "drop-other", "add-other"):
+            try:
+                why = twins(h, hf, script)
+            except Unknown as u:
+                res.ob(False)
+                res.undecide(f"same-name classes hashfunc={hf} script={script}: {u}")
+                continue
+            n += 1
+            res.ob(why is None, sig=("twins", hf, script))
+            if why:
+                res.violation("MAP-STEP", MOD + ".semi_singleton_metaclass.<locals>._SemiSingleton.__call__", f"hashfunc={hf},same-name-classes,script={script}",
+                              f"two classes produced by one class factory (same name, module and qualified name, same metaclass), hash function {hf}: {why}",
+                              replay="from edgegraph.structure.singleton import *\nM = semi_singleton_metaclass()\ndef make():\n    class Twin(metaclass=M):\n        def __init__(self, x): self.x = x\n    return Twin\n"
+                                     "T1, T2 = make(), make()\na = T1(1)\nb = T2(1)\nprint(type(a) is T1, type(b) is T2, a is not b, check_semi_singleton_entry_exists(T2, 1) is b)")
     res.rule("MAP-STEP", n)
     common.vacuity(res, "MAP-STEP", 1000)
     res.analysed = common.analysed(ctx, [MOD + "." + f for f in ("semi_singleton_metaclass", "add_mapping", "drop_semi_singleton_mapping", "check_semi_singleton_entry_exists", "get_all_semi_singleton_instances", "clear_semi_singleton")])
     res.explanation = "Each operation maps every reachable state of the per-class key->instance maps to the model's state and returns what the model returns; induction covers every history."
+
+
+def twins(h, hf, script):
+    h.reset()
+    m = h.w.load_text("verif_c17", SRC.replace("@HF@", hf))
+    h.w.mods.pop("verif_c17", None)
+    g = m.globals
+    h.settle()
+    log = g["LOG"]
+    T1, T2 = g["T1"], g["T2"]
+    check, get_all = g["check_semi_singleton_entry_exists"], g["get_all_semi_singleton_instances"]
+    o1 = h.call(T1, 1)
+    if o1.kind != "return" or not isinstance(o1.value, Obj) or o1.value.cls is not T1:
+        return f"T1(1) gives {o1!r}"
+    t1 = o1.value
+    if script == "check":
+        c = h.call(check, T2, 1)
+        if c.kind != "return" or (c.value is not None and c.value is not False):
+            return f"after T1(1) only, check(T2, 1) reports {c!r}: operations on one class must not change what another class reports"
+    if script == "clear-other":
+        h.call(g["clear_semi_singleton"], T2)
+    if script == "drop-other":
+        h.call(g["drop_semi_singleton_mapping"], T2, 1)      # dropping an absent mapping: whatever it does, T1 keeps its own
+    if script == "add-other":
+        before = len(log.items)
+        o = h.call(T2, 2)
+        if o.kind != "return":
+            return f"T2(2) raises {o.excname}"
+        a = h.call(g["add_mapping"], o.value, 1)
+        if a.kind != "return":
+            return f"add_mapping(T2(2), 1) raises {a.excname} although T2 has no mapping for that key"
+        c = h.call(check, T1, 1)
+        if c.kind != "return" or c.value is not t1:
+            return f"after add_mapping on T2, check(T1, 1) reports {c!r} instead of T1's own instance"
+        return None
+    c = h.call(check, T1, 1)
+    if c.kind != "return" or c.value is not t1:
+        return f"after {script} on the other class, check(T1, 1) reports {c!r} instead of T1's instance"
+    before = len(log.items)
+    o2 = h.call(T2, 1)
+    if o2.kind != "return":
+        return f"T2(1) raises {o2.excname}"
+    if o2.value is t1 or not isinstance(o2.value, Obj) or o2.value.cls is not T2:
+        return f"T2(1) returns {o2.value!r} (an instance of {o2.value.cls.name if isinstance(o2.value, Obj) else '?'} created for the other class): the object returned must be an instance of the class that was called"
+    if len(log.items) != before + 1:
+        return f"T2(1) ran __init__ {len(log.items) - before} time(s); T2 had no mapping for that key"
+    ga = h.call(get_all, T1)
+    items = ga.value.items if ga.kind == "return" and hasattr(ga.value, "items") else None
+    if items is None or len(items) != 1 or items[0] is not t1:
+        return f"get_all(T1) reports {ga!r}; its only live instance is T1(1)"
+    return None
 
 
 def reentrant(h, hf, prior):
